@@ -30,9 +30,11 @@ REQUIRED = {"match.instance_matches": {"quick": 3000, "thorough": 150000}, "args
             "args.span_invariant": {"quick": 5000, "thorough": 100000}, "nomatch.near_miss_rejected": {"quick": 6000, "thorough": 300000},
             "registry.lookup_matches_model": {"quick": 3000, "thorough": 150000}, "registry.ambiguity_iff_model": {"quick": 800, "thorough": 40000},
             "registry.same_definition_ignored": {"quick": 50, "thorough": 2000},
+            "cucumber.lookup": {"quick": 1000, "thorough": 50000}, "registry.find_step_definition_agrees_with_find_match": {"quick": 3000, "thorough": 150000},
             "registry.partial_converter_lookup": {"quick": 2000, "thorough": 100000}, "lookups_ending_in_converter_error": {"quick": 200, "thorough": 10000}, "modules.default_matcher_reset": {"quick": 100, "thorough": 800},
             "wrapper.span_invariant_on_every_match": {"quick": 5000, "thorough": 250000}}
-REQUIRED_SEEN = {"matcher_kind": KINDS, "token_kind": ["lit", "named", "int", "word", "float", "custom", "many", "optional", "rnamed", "runnamed", "roptional"]}
+REQUIRED_SEEN = {"cucumber_expression_parameters": ["none", "1", "2", "no_match"],
+                 "project_default_given_by": ["use_default_step_matcher", "use_step_matcher_before_loading"], "matcher_kind": KINDS, "token_kind": ["lit", "named", "int", "word", "float", "custom", "many", "optional", "rnamed", "runnamed", "roptional"]}
 EXHAUSTIVE = {"quick": True, "thorough": True}
 EXHAUSTIVE_SCOPE = "all ordered registration histories up to the length bound over a 6-entry pattern pool x 3 step types"
 NSHARDS = {"quick": 16, "thorough": 16}
@@ -496,6 +498,17 @@ def lookups(lab, mon, reg, model, desc, texts):
                 got = "error %r" % ex
             ok_all = mon.check("registry.lookup_matches_model", got == want,
                                lambda: dict(history=list(desc), step_type=step_type, text=text, got=got, want=want)) and ok_all
+            # the other lookup (used by the steps.* formatters): it names the definition the runner would execute
+            try:
+                sd = reg.find_step_definition(FakeStep(step_type, text))
+                sd_func = getattr(sd, "func", None)
+                m_func = getattr(m, "func", None) if m is not None else None
+                mon.check("registry.find_step_definition_agrees_with_find_match", sd_func is m_func,
+                          lambda: dict(history=list(desc), step_type=step_type, text=text,
+                                       find_step_definition=getattr(sd, "pattern", None), find_match=repr(got)))
+            except Exception as ex:
+                mon.check("registry.find_step_definition_agrees_with_find_match", False,
+                          lambda: dict(history=list(desc), step_type=step_type, text=text, error=repr(ex)))
     return ok_all
 
 
@@ -573,7 +586,15 @@ def module_loading_random(lab, mon, rng):
                 binds = deco.lower() in ("step", st_type)
                 want[(st_type, text)] = (word, value) if binds else None
         step_registry.registry.clear()
-        matchers.use_default_step_matcher(default)
+        if rng.random() < 0.5:
+            matchers.use_default_step_matcher(default)
+            mon.seen("project_default_given_by", "use_default_step_matcher")
+        else:
+            # the other documented project-wide switch: use_step_matcher(NAME) at module level of environment.py, i.e. BEFORE the
+            # step modules are loaded -- what is current then is the default for every module
+            matchers.use_default_step_matcher("parse")
+            matchers.use_step_matcher(default)
+            mon.seen("project_default_given_by", "use_step_matcher_before_loading")
         runner_util.load_step_modules([root])
         reg = step_registry.registry
         results = {}
@@ -671,6 +692,61 @@ def partial_converters(lab, mon, rng):
                 mon.count("lookups_ending_in_converter_error")
 
 
+def cucumber_expressions(lab, mon, rng):
+    """The alternative matcher class behave.cucumber_expression.StepMatcher4CucumberExpressions: expressions with 0, 1 and 2
+    parameters ({int}, {word}, {string}), full-text match, positional arguments in text order."""
+    try:
+        from behave.cucumber_expression import use_step_matcher_for_cucumber_expressions
+    except Exception as ex:          # optional dependency missing: nothing to observe
+        mon.note("cucumber expressions not available: %r" % (ex,))
+        return
+    M = lab.matchers
+    reg = lab.fresh_registry()
+    word = rng.choice(["basket", "Korb", "queue"])
+    defs = [("an empty %s" % word, 0), ("I have {int} items in the %s" % word, 1), ("{word} puts {int} items into the %s" % word, 2),
+            ("the %s is called {string}" % word, 1), ("the %s is (still )empty/full" % word, 0)]
+    rng.shuffle(defs)
+    fns = {}
+    try:
+        use_step_matcher_for_cucumber_expressions()
+        for i, (ptext, npar) in enumerate(defs):
+            fns[ptext] = lab.make_fn("cuke%d" % i)
+            reg.add_step_definition(rng.choice(["given", "step"]), ptext, fns[ptext])
+    except Exception as ex:
+        mon.check("cucumber.lookup", False, lambda: dict(definitions=defs, error=repr(ex)))
+        return
+    finally:
+        M.use_step_matcher("parse")
+    n = rng.randint(0, 99)
+    who = rng.choice(["Alice", "Bob"])
+    table = [("an empty %s" % word, "an empty %s" % word, ()),
+             ("I have %d items in the %s" % (n, word), "I have {int} items in the %s" % word, (n,)),
+             ("%s puts %d items into the %s" % (who, n, word), "{word} puts {int} items into the %s" % word, (who, n)),
+             ('the %s is called "big one"' % word, "the %s is called {string}" % word, ("big one",)),
+             ("the %s is still empty" % word, "the %s is (still )empty/full" % word, ()),
+             ("the %s is full" % word, "the %s is (still )empty/full" % word, ()),
+             ("an empty %s now" % word, None, None), ("An empty %s" % word, None, None), ("I have many items in the %s" % word, None, None),
+             ("x an empty %s" % word, None, None)]
+    index = {ptext: "cuke%d" % i for i, (ptext, _n) in enumerate(defs)}
+    mon.case(("cucumber", tuple(defs), n, who), True)
+    for text, ptext, args in table:
+        del lab.calls[:]
+        want = None if ptext is None else (index[ptext], tuple(args))
+        try:
+            m = reg.find_match(FakeStep("given", text))
+            if m is None:
+                got = None
+            elif isinstance(m, M.MatchWithError):
+                got = "<match with error>"
+            else:
+                m.run(FakeContext())
+                got = (lab.calls[-1][0], tuple(lab.calls[-1][1])) if lab.calls else "<not called>"
+        except Exception as ex:
+            got = "error %r" % ex
+        mon.check("cucumber.lookup", got == want, lambda: dict(definitions=defs, text=text, got=repr(got), want=repr(want)))
+        mon.seen("cucumber_expression_parameters", "none" if args == () else ("no_match" if args is None else str(len(args))))
+
+
 def run(spec, mon):
     lab = Lab(mon)
     tier = spec.get("tier", "quick")
@@ -698,6 +774,8 @@ def run(spec, mon):
         run_history(lab, mon, hist, "random")
     for i in range(25 if tier == "quick" else 1500):
         partial_converters(lab, mon, rng)
+    for i in range(10 if tier == "quick" else 400):
+        cucumber_expressions(lab, mon, rng)
     module_loading(lab, mon, rng)
     for i in range(8 if tier == "quick" else 60):
         module_loading_random(lab, mon, rng)
